@@ -120,7 +120,7 @@ def _run_unit(seed=None, unit=None, tier="quick", stats=None):
     alloc.activate(al)
     try:
         for step in range(nops):
-            kind = tape.weighted((6, 3, 3, 1, 1, 1, 1, 2), "opkind")
+            kind = tape.weighted((6, 3, 3, 1, 1, 1, 1, 1), "opkind")
             # 0 new request, 1 repeat earlier, 2 earlier doc/op with other variables,
             # 3 validate, 4 introspection, 5 print_schema, 6 allocator churn, 7 derive a schema
             if kind in (1, 2) and not requests:
